@@ -225,8 +225,20 @@ func (r *Run) Failures() int {
 func (r *Run) matchKnown(f Failure) *Finding {
 	for i := range r.known {
 		k := &r.known[i]
-		if k.Class == f.Class && k.Shape == f.Shape {
+		if k.Shape != f.Shape {
+			continue
+		}
+		if k.Class == f.Class {
 			return k
+		}
+		// "has:<feature>": the failure's class is a comma separated feature
+		// list computed from the case alone and must contain that feature.
+		if strings.HasPrefix(k.Class, "has:") {
+			for _, feat := range strings.Split(f.Class, ",") {
+				if feat == k.Class[4:] {
+					return k
+				}
+			}
 		}
 	}
 	return nil
@@ -350,7 +362,8 @@ func (r *Run) Finish() {
 	}
 	b, _ := json.MarshalIndent(ev, "", " ")
 	os.MkdirAll(filepath.Join(Root(), "evidence"), 0o755)
-	if err := os.WriteFile(filepath.Join(Root(), "evidence", r.Prop+".json"), b, 0o644); err != nil {
+	// VERIF_EVIDENCE_SUFFIX keeps trial runs (deliberately broken builds) from overwriting the evidence.
+	if err := os.WriteFile(filepath.Join(Root(), "evidence", r.Prop+os.Getenv("VERIF_EVIDENCE_SUFFIX")+".json"), b, 0o644); err != nil {
 		Machinery("cannot write evidence: %v", err)
 	}
 	summary := map[string]interface{}{}
